@@ -1,6 +1,17 @@
-(* C15: laws of the URI comparison (component level).  PARTIAL: symmetry / permutation
-   invariance of the parameter list comparison is checked by the oracle over all 64 flag sets only. *)
-From Sipsp Require Import Harness CmpLaws.
+(* C15: laws of the URI comparison.
+   PROVED for the model: the short compare is symmetric, reflexive, monotone in the skip flags, user
+   case-sensitive; the header-list comparison of two lists without duplicate names is true exactly when
+   they hold the same (name, value) pairs up to letter case in any order (C15_header_lists_equal_iff);
+   the parameter-list comparison (duplicate-free keys) is true exactly when the user / ttl / method /
+   maddr presence masks agree and every pair of parameters with the same key has the same value up to
+   letter case (C15_parameter_lists_equal_iff); from these: symmetry, reflexivity, independence of
+   order and letter case for both lists; the parse-and-compare list entry points and the whole
+   comparison URICmp are symmetric for every flag set (URIs whose lists parse without duplicate names),
+   and skipping more components only turns "different" into "equal" for the whole comparison; the
+   parse-and-compare entry point hands back both URIs.
+   The lists compared are the first 100 entries (known finding F13: the library's temporaries). *)
+From Sipsp Require Import Harness CmpLaws CmpLists.
+From Coq Require Import Permutation.
 Theorem C15_short_compare_symmetric : forall u1 b1 u2 b2 f, uri_cmp_short u1 b1 u2 b2 f = uri_cmp_short u2 b2 u1 b1 f.
 Proof. exact cmp_short_sym. Qed.
 Theorem C15_short_compare_reflexive : forall u b f,
@@ -23,3 +34,61 @@ Theorem C15_parse_and_compare_hands_back_both_uris : forall raw1 raw2 f r e w r1
 Proof. exact parse_cmp_agrees. Qed.
 Theorem C15_header_list_equal_to_itself : forall e, names_nodup e -> uhdrs_entries_eq e e = true.
 Proof. exact uhdrs_eq_refl. Qed.
+
+(* ---- the two list comparisons against what they mean ------------------------------------------------------------------------------- *)
+Theorem C15_header_lists_equal_iff : forall e1 e2, names_nodup e1 -> names_nodup e2 ->
+  (uhdrs_entries_eq e1 e2 = true <-> Permutation (map lp e1) (map lp e2)).
+Proof. exact uhdrs_eq_spec. Qed.
+Theorem C15_header_lists_symmetric : forall e1 e2, names_nodup e1 -> names_nodup e2 -> uhdrs_entries_eq e1 e2 = uhdrs_entries_eq e2 e1.
+Proof. exact uhdrs_eq_sym. Qed.
+Theorem C15_header_lists_order_does_not_matter : forall e1 e1' e2 e2', names_nodup e1 -> names_nodup e2 ->
+  Permutation e1 e1' -> Permutation e2 e2' -> uhdrs_entries_eq e1' e2' = uhdrs_entries_eq e1 e2.
+Proof. exact uhdrs_eq_order. Qed.
+Theorem C15_header_lists_letter_case_does_not_matter : forall e1 e1' e2 e2', names_nodup e1 -> names_nodup e2 ->
+  map lp e1 = map lp e1' -> map lp e2 = map lp e2' -> uhdrs_entries_eq e1' e2' = uhdrs_entries_eq e1 e2.
+Proof. exact uhdrs_eq_case. Qed.
+
+Theorem C15_parameter_lists_equal_iff : forall ty1 ty2 e1 e2, keys_nodup e2 ->
+  (uparams_entries_eq ty1 ty2 e1 e2 = true <-> N.land ty1 up_bmask = N.land ty2 up_bmask /\ pairs_agree e1 e2).
+Proof. exact uparams_eq_spec. Qed.
+Theorem C15_parameter_lists_symmetric : forall ty1 ty2 e1 e2, keys_nodup e1 -> keys_nodup e2 ->
+  uparams_entries_eq ty1 ty2 e1 e2 = uparams_entries_eq ty2 ty1 e2 e1.
+Proof. exact uparams_eq_sym. Qed.
+Theorem C15_parameter_list_equal_to_itself : forall ty e, keys_nodup e -> uparams_entries_eq ty ty e e = true.
+Proof. exact uparams_eq_refl. Qed.
+Theorem C15_parameter_lists_order_does_not_matter : forall ty1 ty2 e1 e1' e2 e2', keys_nodup e2 ->
+  Permutation e1 e1' -> Permutation e2 e2' -> uparams_entries_eq ty1 ty2 e1' e2' = uparams_entries_eq ty1 ty2 e1 e2.
+Proof. exact uparams_eq_order. Qed.
+Theorem C15_parameter_lists_letter_case_does_not_matter : forall ty1 ty2 e1 e1' e2 e2', keys_nodup e2 ->
+  map pkv e1 = map pkv e1' -> map pkv e2 = map pkv e2' -> uparams_entries_eq ty1 ty2 e1' e2' = uparams_entries_eq ty1 ty2 e1 e2.
+Proof. exact uparams_eq_case. Qed.
+Theorem C15_user_ttl_method_maddr_in_both_or_neither : forall ty1 ty2 e1 e2,
+  N.land ty1 up_bmask <> N.land ty2 up_bmask -> uparams_entries_eq ty1 ty2 e1 e2 = false.
+Proof. exact uparams_mask_differs. Qed.
+
+(* ---- the entry points -------------------------------------------------------------------------------------------------------------------- *)
+Theorem C15_raw_parameter_compare_symmetric : forall b1 o1 b2 o2, o1 <= nnat (length b1) -> o2 <= nnat (length b2) ->
+  params_ok b1 o1 -> params_ok b2 o2 -> verdict (uri_params_eq b1 o1 b2 o2) = verdict (uri_params_eq b2 o2 b1 o1).
+Proof. exact uri_params_eq_sym. Qed.
+Theorem C15_raw_header_compare_symmetric : forall b1 o1 b2 o2, o1 <= nnat (length b1) -> o2 <= nnat (length b2) ->
+  hdrs_ok b1 o1 -> hdrs_ok b2 o2 -> verdict (uri_hdrs_eq b1 o1 b2 o2) = verdict (uri_hdrs_eq b2 o2 b1 o1).
+Proof. exact uri_hdrs_eq_sym. Qed.
+Theorem C15_comparison_symmetric : forall u1 b1 u2 b2 f, uri_lists_ok u1 b1 -> uri_lists_ok u2 b2 ->
+  uri_cmp u1 b1 u2 b2 f = uri_cmp u2 b2 u1 b1 f.
+Proof. exact uri_cmp_sym. Qed.
+Theorem C15_comparison_skipping_more_only_turns_different_into_equal : forall u1 b1 u2 b2 f f', flags_le f f' ->
+  uri_cmp u1 b1 u2 b2 f = Some true -> uri_cmp u1 b1 u2 b2 f' = Some true.
+Proof. exact uri_cmp_monotone. Qed.
+
+(* the hypotheses are satisfiable: sip:a@b;transport=udp;lr?x=1&y=2 *)
+Definition C15_raw : list byte := [115;105;112;58;97;64;98;59;116;114;97;110;115;112;111;114;116;61;117;100;112;59;108;114;63;120;61;49;38;121;61;50].
+Example C15_lists_ok_example : match parse_uri C15_raw puri0 with Some (_, _, u) => uri_lists_ok u C15_raw | None => False end.
+Proof.
+  destruct (parse_uri C15_raw puri0) as [[[e o] u]|] eqn:E; vm_compute in E; [|discriminate E]. injection E as <- <- <-.
+  split; intros p H; vm_compute in H; injection H as <-.
+  - unfold params_ok. vm_compute. intros _. repeat (constructor; [cbn; intuition discriminate|]). constructor.
+  - unfold hdrs_ok. vm_compute. intros _. repeat (constructor; [cbn; intuition discriminate|]). constructor.
+Qed.
+Print Assumptions C15_comparison_symmetric.
+Print Assumptions C15_header_lists_equal_iff.
+Print Assumptions C15_parameter_lists_equal_iff.
